@@ -3,7 +3,10 @@
 mod core;
 mod hashers;
 mod nodes;
+mod parsum;
 mod prng;
+mod sc_dens;
+mod sc_gossip;
 mod sc_stream;
 
 use crate::core::*;
@@ -23,6 +26,10 @@ macro_rules! scenarios {
     ($m:ident, $name:expr) => {
         match $name {
             "stream" => $m!(sc_stream::Stream),
+            "dens" => $m!(sc_dens::Dens),
+            "gossip" => $m!(sc_gossip::Gossip),
+            "joins" => $m!(sc_gossip::Joins),
+            "parsum" => $m!(sc_gossip::Parsum),
             other => {
                 eprintln!("unknown scenario {}", other);
                 std::process::exit(2)
